@@ -1004,3 +1004,106 @@ def stream_init(repo, run, rule):
             len(got), me.f.get('builder') is b, ', raises %s' % r.raised if r.raised else ''))
     else:
         run.ok(rule, fi, 'StreamNode(builder): list of builder.stages; builder kept')
+
+
+def path_node_tables(repo, run, rule):
+    """PathNode evaluated: construction parses the reference point (implicit / cwd / file / parent[(n)] / abs(path); anything else is
+    rejected) and takes a single value or a sequence of components; evaluation joins the components onto the reference point -
+    the n-th parent of the node's own source file, padded with '..' beyond the recorded name - and normalises"""
+    import pathlib
+    import posixpath
+    init = repo.func('PathNode.__init__')
+    bad = []
+    cases = [('a', 'file', ['a'], ('file', None)), (['a', 'b'], '', ['a', 'b'], ('', None)), (('a', 'b'), None, ('a', 'b'), ('', None)), (None, None, [], ('', None)), ('', 'cwd', [], ('cwd', None)),
+             (b'x', '', [b'x'], ('', None)), ('x', 'parent', ['x'], ('parent', 0)), ('x', 'parent(2)', ['x'], ('parent', 2)), ('x', 'abs(/data/x)', ['x'], ('abs', '/data/x')), ('x', 'bogus', None, 'ValueError')]
+    for values, ref, want_content, want_parsed in cases:
+        got = []
+        ev = _fde(repo, stubs={'__init__'}, stub=lambda name, recv, a, k: got.append((list(a), dict(k))))
+        me = Obj('p', 'PathNode')
+        try:
+            r = ev.call(init, me, values, ref)
+        except Unsupported as e:
+            raise AnalysisError('PathNode.__init__: finite-domain evaluator refused: %s' % e)
+        what = 'PathNode(%r, %r)' % (values, ref)
+        if want_parsed == 'ValueError':
+            if r.raised != 'ValueError':
+                bad.append('%s: %s (expected ValueError)' % (what, r.raised or 'accepted as %r' % (me.f.get('_ref_point_parsed'),)))
+            continue
+        if r.raised or len(got) != 1:
+            bad.append('%s: %s' % (what, 'raises %s' % r.raised if r.raised else 'list constructor called %d times' % len(got)))
+            continue
+        parsed = me.f.get('_ref_point_parsed')
+        if (tuple(parsed) if isinstance(parsed, (list, tuple)) else parsed) != want_parsed:
+            bad.append('%s: reference point parsed as %r, expected %r' % (what, parsed, want_parsed))
+        content = got[0][0][0] if got[0][0] else None
+        if content != want_content:
+            bad.append('%s: components %r, expected %r' % (what, content, want_content))
+    if bad:
+        run.violation(rule, init, 'PathNode.__init__', '; '.join(bad[:3]))
+    else:
+        run.ok(rule, init, 'PathNode.__init__ evaluated on %d (value, reference point) pairs' % len(cases))
+    evf = repo.func('PathNode.ayns.on_evaluate_impl')
+    bad = []
+    rows = 0
+    table = [(('', None), '/a/b/c.yaml', 'x/y'), (('cwd', None), None, '/cwd/x/y'), (('file', None), '/a/b/c.yaml', '/a/b/c.yaml/x/y'), (('file', None), None, 'ValueError'),
+             (('parent', 0), '/a/b/c.yaml', '/a/b/x/y'), (('parent', 1), '/a/b/c.yaml', '/a/x/y'), (('parent', 2), '/a/b/c.yaml', '/x/y'), (('parent', 3), '/a/b/c.yaml', '/x/y'),
+             (('parent', 0), 'b/c.yaml', 'b/x/y'), (('parent', 1), 'b/c.yaml', 'x/y'), (('parent', 2), 'b/c.yaml', '../x/y'), (('parent', 4), 'b/c.yaml', '../../../x/y'),
+             (('parent', 0), None, 'ValueError'), (('abs', '/data'), None, '/data/x/y'), (('abs', 'rel/d'), '/a/b/c.yaml', 'rel/d/x/y'), (('weird', None), '/a/b/c.yaml', 'ValueError')]
+    for parsed, src, want in table:
+        ev = _fde(repo, stubs={'ConfigList.ayns.on_evaluate_impl'}, stub=lambda name, recv, a, k: ['x', 'y'])
+        mk = lambda *a: pathlib.PurePosixPath(*a)      # noqa: E731
+        mk._fde_ok = True
+        cw = lambda: '/cwd'      # noqa: E731
+        cw._fde_ok = True
+        nm = lambda x: posixpath.normpath(str(x))      # noqa: E731
+        nm._fde_ok = True
+        ev.extcalls.update({'pathlib.Path': mk, 'pathlib.PurePath': mk, 'pathlib.PurePosixPath': mk, 'os.getcwd': cw, 'os.path.normpath': nm})
+        me = node_obj('p', 'PathNode', _source_file=src, _ref_point_parsed=parsed, ref_point='?')
+        try:
+            r = ev.call(evf, me, ['k'], Obj('ctx', 'EvalContext'))
+        except Unsupported as e:
+            raise AnalysisError('PathNode.on_evaluate_impl: finite-domain evaluator refused: %s' % e)
+        rows += 1
+        what = 'reference point %r, source file %r' % (parsed, src)
+        if want == 'ValueError':
+            if r.raised != 'ValueError':
+                bad.append('%s: %s (expected ValueError)' % (what, r.raised or r.ret))
+        elif r.raised or str(r.ret) != want:
+            bad.append('%s: components x/y resolve to %s, expected %s' % (what, r.raised or r.ret, want))
+    if bad:
+        run.violation(rule, evf, 'PathNode evaluation', '; '.join(bad[:3]))
+    else:
+        run.ok(rule, evf, 'PathNode evaluation on %d (reference point, source file) rows' % rows, 'implicit / cwd / own file / n-th parent with .. padding / abs; normalised')
+
+
+def list_path_table(repo, run, rule):
+    """NodePath.get_list_path evaluated: nothing / None is the empty path, a single int is one component, a str is parsed, a
+    sequence is taken as it is - and its components are type-checked (str / int, not bool) exactly when check_types is set"""
+    import re as _re
+    fi = repo.func('NodePath.get_list_path')
+    bad = []
+    cases = [((), {}, []), ((None,), {}, []), ((3,), {}, [3]), ((['a', 1],), {}, ['a', 1]), ((('a', 'b'),), {}, ['a', 'b']), (('a', 'b', 2), {}, ['a', 'b', 2]),
+             (([1.5],), {}, 'ValueError'), (([True],), {}, 'ValueError'), (([1.5],), {'check_types': False}, [1.5]), (([True, 'x'],), {'check_types': False}, [True, 'x']),
+             ((['a', None],), {}, 'ValueError')]
+    for args, kw, want in cases:
+        ev = _fde(repo, stubs={'split_path'}, stub=lambda name, recv, a, k: ['<parsed>'])
+        ev.constructors['NodePath'] = lambda *a, **k: list(a[0]) if a else []
+        try:
+            r = ev.call(fi, ('class', 'NodePath'), *args, **kw)
+        except Unsupported as e:
+            raise AnalysisError('NodePath.get_list_path: finite-domain evaluator refused: %s' % e)
+        what = 'get_list_path(%s%s)' % (', '.join(map(repr, args)), ''.join(', %s=%r' % kv for kv in kw.items()))
+        if want == 'ValueError':
+            if r.raised != 'ValueError':
+                bad.append('%s: %s (expected ValueError)' % (what, r.raised or r.ret))
+        elif r.raised or r.ret != want:
+            bad.append('%s gives %s, expected %r' % (what, r.raised or r.ret, want))
+    ev = _fde(repo, stubs={'split_path'}, stub=lambda name, recv, a, k: ['parsed', a[0]])
+    ev.constructors['NodePath'] = lambda *a, **k: list(a[0]) if a else []
+    r = ev.call(fi, ('class', 'NodePath'), 'a.b[1]')
+    if r.raised or r.ret != ['parsed', 'a.b[1]']:
+        bad.append('a str path is not handed to split_path (%s)' % (r.raised or r.ret,))
+    if bad:
+        run.violation(rule, fi, 'NodePath.get_list_path', '; '.join(bad[:3]))
+    else:
+        run.ok(rule, fi, 'get_list_path evaluated on %d argument shapes' % (len(cases) + 1), 'empty / int / str (parsed) / sequence; components type-checked iff check_types')
